@@ -114,6 +114,39 @@ CLAIMS.update({
     },
 })
 
+CLAIMS.update({
+    "C01": {
+        "text": "Structural agreement between the signing and the verifying side, which is what makes a disagreement show only for some curve x hash x default combination: sign_digest, verify_digest and recovery obtain their integer from the one shared converter called with (normalised digest, the key's own curve, the caller's allow_truncate) and no second conversion of a digest exists; allow_truncate defaults agree pairwise (True for the data API, False for the digest API) and default encoder/decoder belong to one format on every entry point; entropy, k, sigencode, sigdecode, hashfunc and allow_truncate are forwarded unchanged along sign -> sign_digest -> sign_number and verify -> verify_digest, both sides fall back to the key's default hash; the order handed to the encoder (privkey.order) and to the decoder (pubkey.order) are both set from curve.order by from_secret_exponent / from_public_point, which also receive the same curve and hash function; every key loader ends in those two constructors. Does not decide that verifies(sign(...)) holds arithmetically.",
+        "note": "A1-A7; relies on C12 for the codec pairing itself and on C03/C02 for the guards.",
+        "technique": "abstract interpretation: call-argument provenance (forwarding dataflow), default-value table, constructor field provenance",
+        "design": "DESIGN.md section 3 C01",
+    },
+    "C09": {
+        "text": "Writer/reader agreement of the key serialisations: the TLV tree each writer emits (SPKI, ECPrivateKey, PKCS#8; from the writer's expression tree) and the TLV tree its reader consumes (reconstructed from the buffers flowing between DER reader calls along every accepting path of the abstract interpretation) agree, the reader's children being a prefix of the writer's, with matching constants (version, context tag, algorithm OID); the curve registry is consistent (17+ Curve objects = members of `curves` = package exports, OIDs and names pairwise distinct, each curve paired with the generator constructed on it); every public point encoding written has exactly the length and prefix byte the from_string dispatcher expects, the private raw encoding is number_to_string(secret, privkey.order) and from_der left-pads short scalars; PEM labels written are those searched for; to_der refuses the raw encoding and to_string accepts exactly the four readable encodings; the remainders SigningKey.from_der drops are exactly the three documented ones. Does not decide byte-exactness against an independent encoder nor value round trips.",
+        "note": "A1-A7; the DER primitives themselves are C11.",
+        "technique": "DER-shape comparison (writer expression tree vs reader call/buffer flow from abstract interpretation), table checks, length entailment",
+        "design": "DESIGN.md section 3 C09",
+    },
+    "C14": {
+        "text": "Forwarding and validation structure of public-key recovery (thin): from_public_key_recovery hashes with the caller's hashfunc and forwards signature, curve, hashfunc, sigdecode, allow_truncate unchanged; the digest variant decodes with curve.generator.order(), converts the digest with the shared converter on (digest, curve, allow_truncate) and calls recover_public_keys(number, generator); recover_public_keys returns a list of exactly two Public_key(generator, Q) objects with validation on, both built on x = r with y a root of x^3 + ax + b mod p and -y mod p, both by the expression r^-1 (sR + (-e mod n)G); each is re-wrapped by from_public_point(pk.point, curve, hashfunc) with validation on. That the candidates contain the signer's key and verify the signature is algebra and is NOT decided.",
+        "note": "A1-A7; the substance of the property (recovery algebra) is outside static reach; this check pins the plumbing that the algebra assumes.",
+        "technique": "abstract interpretation: call-argument provenance, result-shape and term-structure checks",
+        "design": "DESIGN.md section 3 C14",
+    },
+    "C15": {
+        "text": "Range and guard clauses of the number-theory helpers (thin): inverse_mod in all four build variants (py3, py3-old, gmpy2, gmpy - analysed in every run) returns 0 for a == 0 or a value proven in [0, m-1], and the two extended-Euclid variants perform the same statements up to mpz wrapping; square_root_mod_prime returns values in [0, p-1] (polynomial helpers reduce every stored coefficient), tests the Jacobi symbol before every algorithm branch and raises SquareRootError, and every exponent division is exact in the residue class of its branch; jacobi asserts its preconditions, recurses on (n mod a1, a1) with a1 the odd part of a mod n, and its two sign rules equal the supplementary-law and reciprocity tables on all residue cases (evaluated by a restricted residue evaluator, nothing executed). Does not decide r*r = a, a*i = 1 or equality with the product of Legendre symbols.",
+        "note": "A1, A5; numerical identities are outside static reach.",
+        "technique": "abstract interpretation (range entailment) across build configurations, sibling comparison, decision tables over residue classes",
+        "design": "DESIGN.md section 3 C15",
+    },
+    "C16": {
+        "text": "Table and base-set clauses (thin): the literal smallprimes table is ascending, equals the set of primes up to its maximum (sieved by the checker) and is never written; is_prime answers n <= max(table) by membership before a prefilter that rejects only on a non-trivial gcd with table primes; for every bit length <= 65 at least 12 Miller-Rabin rounds are chosen (bases smallprimes[i], deterministic below 3.3e24 by the published bound) and False is returned only on a witness; next_prime walks odd candidates upward from (n+1)|1 until is_prime, 2 below 2; gcd/lcm reduce both calling conventions with the same binary function. Does not decide the modular arithmetic of Miller-Rabin, factorization or gcd values.",
+        "note": "A1; shape rules over one function each: an equivalent restructuring is reported and must be re-confirmed by reading.",
+        "technique": "constant folding + table comparison, structural shape rules",
+        "design": "DESIGN.md section 3 C16",
+    },
+})
+
 NOT_YET = "check not built yet (framework under construction; design in DESIGN.md section 3)"
 
 
